@@ -28,7 +28,7 @@ void h_bind(void)
 {
   bindings b = nondet_bindings(), outer = nondet_bindings();
   __CPROVER_assume(wf_bmap(&b.m_bindings) && wf_bmap(&outer.m_bindings));
-  b.m_super = nondet_bool() ? &outer : 0;
+  b.m_super = nondet_bool() ? &outer : 0; outer.m_super = 0;
   name_t name = nondet_uchar(), q = nondet_uchar();
   __CPROVER_assume(NAME_OK(name) && NAME_OK(q));
   op_bind *op = OP(nondet_bool());
